@@ -39,6 +39,14 @@ theorem limits_fit_header :
     Gen.Fav.MAX_LINE < 128 ∧ Gen.Fav.MAX_FOLDER < 128 ∧ Gen.Fav.MAX_FAV < 32768
       ∧ Gen.Fav.MAX_BOARD < 4294967296 := by decide
 
+/-- both savers write the file they later rename over `.fav`, and its name is built with a call of the
+random-suffix function `types.GetRandom` (read off the source of `ptt.WriteFavorites` and `FavRaw.Save`):
+the hypothesis "temporary names pairwise distinct" of `concurrent_saves_atomic`, up to the collision
+probability of a random 128-bit suffix. -/
+theorem tmp_names_random :
+    Gen.Fav.writeFavoritesTmpRandom = true ∧ Gen.Fav.writeFavoritesWritesTmp = true
+      ∧ Gen.Fav.saveTmpRandom = true ∧ Gen.Fav.saveWritesTmp = true := by decide
+
 /-! #### (ii) the bytes follow the `.fav` grammar -/
 
 /-- `WriteFavrec` of a well-formed tree is the grammar: header, the entries, the folders' records depth first. -/
@@ -207,6 +215,88 @@ theorem save_writes_iff (m : Option Nat) (t : Nat) :
     by_cases h1 : x < t
     · simp [h1]
     · by_cases h2 : x = t <;> simp [h1, h2]
+
+/-! #### overlapping saves -/
+
+/-- a directory in which `.fav` and the temporary names are not hard links of one another. -/
+def WorldOK (tmp : Nat → String) (w : World) : Prop :=
+  (∀ a b x, InS tmp a → InS tmp b → w.names a = some x → w.names b = some x → a = b)
+    ∧ (∀ a x, InS tmp a → w.names a = some x → x < w.next)
+
+/-- any number of savers, each running `open(tmp i, O_CREAT|O_TRUNC); write…; rename(tmp i, .fav)` on inodes
+and descriptors, interleaved in ANY order (`sched`, so every prefix of every interleaving is covered): if the
+temporary names are pairwise distinct and differ from `.fav`, then `.fav` always holds the old content or the
+complete content of one saver; once any saver has finished, it holds the complete content of one of them. -/
+theorem concurrent_saves_atomic (tmp : Nat → String) (chunks : Nat → List (List Nat))
+    (htmp : ∀ i j, tmp i = tmp j → i = j) (hne : ∀ i, tmp i ≠ FAVFILE)
+    (w0 : World) (hw : WorldOK tmp w0) (sched : List Nat) :
+    ((concRun tmp chunks (concInit w0) sched).w.read FAVFILE = w0.read FAVFILE
+        ∨ ∃ i, (concRun tmp chunks (concInit w0) sched).w.read FAVFILE = some (chunks i).flatten)
+      ∧ ((∃ i, (concRun tmp chunks (concInit w0) sched).st i = .done) →
+          ∃ j, (concRun tmp chunks (concInit w0) sched).w.read FAVFILE = some (chunks j).flatten) := by
+  have h0 : CInv tmp chunks (w0.read FAVFILE) (concInit w0) :=
+    ⟨hw.1, hw.2, by intro i ino off rest h; simp [concInit] at h, Or.inl rfl,
+     by intro ⟨i, h⟩; simp [concInit] at h⟩
+  have h := concRun_inv tmp chunks (w0.read FAVFILE) htmp hne sched _ h0
+  exact ⟨h.fav, h.fin⟩
+
+def sharedTmp : Nat → String := fun _ => ".fav.tmp"
+def tearChunks : Nat → List (List Nat) := fun i => if i = 0 then [[1, 2, 3]] else [[9]]
+def tearWorld : World := ⟨fun n => if n = FAVFILE then some 0 else none, fun _ => [7], 1⟩
+/-- A opens, B opens (truncating the same inode), A writes, A renames, B writes — into the live `.fav` —, B's
+rename finds nothing. -/
+def tearSched : List Nat := [0, 1, 0, 0, 1, 1]
+
+/-- with ONE temporary name shared by the savers (everything else as above) there is an interleaving after
+which both savers have finished and `.fav` is a mixture: the head of B's image over the tail of A's. -/
+theorem shared_tmp_name_tears :
+    (∀ i, sharedTmp i ≠ FAVFILE) ∧ WorldOK sharedTmp tearWorld
+      ∧ (concRun sharedTmp tearChunks (concInit tearWorld) tearSched).w.read FAVFILE = some [9, 2, 3]
+      ∧ some [9, 2, 3] ≠ tearWorld.read FAVFILE
+      ∧ (∀ i, some [9, 2, 3] ≠ some (tearChunks i).flatten)
+      ∧ (concRun sharedTmp tearChunks (concInit tearWorld) tearSched).st 0 = .done
+      ∧ (concRun sharedTmp tearChunks (concInit tearWorld) tearSched).st 1 = .done := by
+  refine ⟨fun i => by show ".fav.tmp" ≠ ".fav"; decide, ⟨?_, ?_⟩, ?_, by decide, ?_, by decide, by decide⟩
+  · intro a b x ha hb hxa hxb
+    simp only [tearWorld] at hxa hxb
+    by_cases ea : a = FAVFILE <;> by_cases eb : b = FAVFILE <;> simp [ea, eb] at hxa hxb
+    rw [ea, eb]
+  · intro a x _ hxa
+    simp only [tearWorld] at hxa ⊢
+    by_cases ea : a = FAVFILE <;> simp [ea] at hxa
+    omega
+  · decide
+  · intro i
+    by_cases h : i = 0 <;> simp [tearChunks, h]
+
+/-- distinct temporary names exist, and so do directories satisfying `WorldOK` with a `.fav` in them. -/
+def tmpX (i : Nat) : String := ".fav.tmp." ++ String.ofList (List.replicate i 'x')
+
+theorem tmpX_len (i : Nat) : (tmpX i).length = 9 + i := by
+  simp [tmpX, String.length_append]
+  decide
+
+example : (∀ i j, tmpX i = tmpX j → i = j) ∧ (∀ i, tmpX i ≠ FAVFILE) ∧ WorldOK tmpX tearWorld
+    ∧ tearWorld.read FAVFILE = some [7] := by
+  have hne : ∀ i, tmpX i ≠ FAVFILE := by
+    intro i h
+    have := congrArg String.length h
+    have e : FAVFILE.length = 4 := by decide
+    rw [tmpX_len, e] at this
+    omega
+  refine ⟨?_, hne, ⟨?_, ?_⟩, by decide⟩
+  · intro i j h
+    have := congrArg String.length h
+    simp [tmpX_len] at this; exact this
+  · intro a b x _ _ hxa hxb
+    simp only [tearWorld] at hxa hxb
+    by_cases ea : a = FAVFILE <;> by_cases eb : b = FAVFILE <;> simp [ea, eb] at hxa hxb
+    rw [ea, eb]
+  · intro a x _ hxa
+    simp only [tearWorld] at hxa ⊢
+    by_cases ea : a = FAVFILE <;> simp [ea] at hxa
+    omega
+
 
 /-! #### every tree the API can build is covered -/
 
